@@ -28,6 +28,7 @@ RULE = (
     "size-1 axis, or mixed operand kinds; distinct = sha1 of the serialised case (op, form, kinds, leading "
     "axes, shapes, axis, value seed)."
     " Round 8: rank 3 is drawn as often as the other ranks; rank_pairs enumerates operation x rank of the left operand x rank of the right operand x operand kinds; the library's Norm wrapper is one of the reducers."
+    ' Round 9: quantile / percentile among the reducers; ravel in C or Fortran order (positional / keyword).'
 )
 ASSUMPTIONS = [
     "numpy applied to raw[e, p] slices (np.matmul, np.tensordot axes=1/2, np.swapaxes, np.trace, np.linalg.det/inv/"
